@@ -186,8 +186,12 @@ Definition spanned_by_construct (s : cstate) (a : key) : bool :=
   existsb (fun e => match assoc (fst e) (caxes s) with
                     | Some axs => memb a axs | None => false end) (caxes s).
 
-Definition spanned_by_field (s : cstate) (a : key) : bool :=
-  match faxes s with Some ax => memb a ax | None => false end.
+(* "key in (source._field_data_axes or ())" for a constructs container whose
+   _field_data_axes attribute holds [fda] *)
+Definition fda_spans (fda : option (list key)) (a : key) : bool :=
+  match fda with Some ax => memb a ax | None => false end.
+
+Definition spanned_by_field (s : cstate) (a : key) : bool := fda_spans (faxes s) a.
 
 Definition cm_names (a : key) (e : centry) : bool :=
   match e with (CellMethod, _, PCm axs) => memb a axs | _ => false end.
@@ -237,7 +241,11 @@ Definition is_view (v : via) : bool := match v with VDomain => true | _ => false
 
 Definition psize (p : payload) : option Z := match p with PAxis n => Some n | _ => None end.
 
-Definition set_construct (v : via) (t : ctype) (p : payload) (k : option key)
+(* [fda]: the _field_data_axes attribute of the container that
+   _domain_axis_spanned_by consults - getattr(self, "_view_source", self): the
+   container itself for a field, the container a view is (transitively) a view
+   of otherwise *)
+Definition set_construct_g (fda : option (list key)) (v : via) (t : ctype) (p : payload) (k : option key)
            (axes : option (list key)) (s : cstate) : cstate * outcome :=
   if negb (kind_ok t p) then (s, OutOfModel) else
   (* a dimension coordinate with data of another rank cannot be created:
@@ -258,7 +266,7 @@ Definition set_construct (v : via) (t : ctype) (p : payload) (k : option key)
   let resize := match t, cget DomainAxis key (cons s) with
                 | DomainAxis, Some old =>
                     negb (option_eqb Z.eqb (psize old) (psize p)) &&
-                    (spanned_by_construct s key || spanned_by_field s key)
+                    (spanned_by_construct s key || fda_spans fda key)
                 | _, _ => false end in
   if resize then (s, Rejected ValueErr) else
   if is_array t then
@@ -279,6 +287,12 @@ Definition set_construct (v : via) (t : ctype) (p : payload) (k : option key)
         (mkS (cset t key p (cons s)) (aset key t (ctys s)) (caxes s) (fshape s) (faxes s), Done)
     end
   end.
+
+(* through the field, the core route, or a view whose source is the field's
+   own container (what Constructs.__init__ arranges for every view) *)
+Definition set_construct (v : via) (t : ctype) (p : payload) (k : option key)
+           (axes : option (list key)) (s : cstate) : cstate * outcome :=
+  set_construct_g (faxes s) v t p k axes s.
 
 (* ------------------------------------------------------------------ *)
 (* del_construct                                                       *)
@@ -302,10 +316,11 @@ Definition clean_ref (k : key) (e : centry) : centry :=
   end.
 
 (* Constructs._del_construct followed by _pop *)
-Definition del_construct_core (v : via) (k : key) (s : cstate) : cstate * outcome :=
+Definition del_construct_core_g (fda : option (list key)) (v : via) (k : key) (s : cstate)
+  : cstate * outcome :=
   match cget DomainAxis k (cons s) with
   | Some _ =>
-      if spanned_by_construct s k || (is_view v && spanned_by_field s k)
+      if spanned_by_construct s k || (is_view v && fda_spans fda k)
       then (s, Rejected ValueErr)
       else if existsb (cm_names k) (cons s) then (s, Rejected ValueErr)
       else
@@ -323,14 +338,18 @@ Definition del_construct_core (v : via) (k : key) (s : cstate) : cstate * outcom
       end
   end.
 
-Definition del_construct (v : via) (k : key) (s : cstate) : cstate * outcome :=
+Definition del_construct_core (v : via) (k : key) (s : cstate) : cstate * outcome :=
+  del_construct_core_g (faxes s) v k s.
+
+Definition del_construct_g (fda : option (list key)) (v : via) (k : key) (s : cstate)
+  : cstate * outcome :=
   match v with
   | VCore =>
       (* core Field.del_construct *)
       match cget DomainAxis k (cons s) with
       | Some _ => if spanned_by_field s k then (s, Rejected ValueErr)
-                  else del_construct_core v k s
-      | None => del_construct_core v k s
+                  else del_construct_core_g fda v k s
+      | None => del_construct_core_g fda v k s
       end
   | _ =>
       (* mixin FieldDomain.del_construct: construct_key(identity) first *)
@@ -339,11 +358,14 @@ Definition del_construct (v : via) (k : key) (s : cstate) : cstate * outcome :=
       | Some _ =>
           match v, cget DomainAxis k (cons s) with
           | VField, Some _ => if spanned_by_field s k then (s, Rejected ValueErr)
-                              else del_construct_core v k s
-          | _, _ => del_construct_core v k s
+                              else del_construct_core_g fda v k s
+          | _, _ => del_construct_core_g fda v k s
           end
       end
   end.
+
+Definition del_construct (v : via) (k : key) (s : cstate) : cstate * outcome :=
+  del_construct_g (faxes s) v k s.
 
 (* ------------------------------------------------------------------ *)
 (* field data and data axes                                            *)
@@ -849,7 +871,10 @@ Definition conv_keep (s : cstate) (dax : list key) (e : centry) : bool :=
 Definition ref_coords (e : centry) : list key :=
   match e with (CoordRef, _, PRef cs _) => cs | _ => [] end.
 
-Definition convert (k : key) (full : bool) (s : cstate) : cstate * outcome :=
+(* [keep]: which dimension / auxiliary coordinates and cell measures the new
+   field receives (the code: conv_keep) *)
+Definition convert_with (keep : cstate -> list key -> centry -> bool)
+           (k : key) (full : bool) (s : cstate) : cstate * outcome :=
   match assoc k (ctys s) with
   | None => (s, Rejected ValueErr)
   | Some t =>
@@ -893,7 +918,7 @@ Definition convert (k : key) (full : bool) (s : cstate) : cstate * outcome :=
                       then (mkS axes_c (map (fun e => (snd (fst e), fst (fst e))) axes_c) []
                                 (Some sh) (Some dax), Done)
                       else
-                        let kept := filter (conv_keep s dax) (cons s) in
+                        let kept := filter (keep s dax) (cons s) in
                         if negb (forallb copyable_entry kept) then (s, Rejected ValueErr) else
                         match mapM (conv_ref s dax) (cons s) with
                         | None => (s, Rejected KeyErr)
@@ -913,6 +938,9 @@ Definition convert (k : key) (full : bool) (s : cstate) : cstate * outcome :=
           end
       end
   end.
+
+Definition convert (k : key) (full : bool) (s : cstate) : cstate * outcome :=
+  convert_with conv_keep k full s.
 
 (* ------------------------------------------------------------------ *)
 (* the step function                                                   *)
@@ -934,6 +962,134 @@ Definition step (s : cstate) (o : op) : cstate * outcome :=
   end.
 
 Definition run (ops : list op) : cstate := fold_left (fun s o => fst (step s o)) ops init.
+
+(* ------------------------------------------------------------------ *)
+(* registers: the field and the views taken of it, of any depth        *)
+(* ------------------------------------------------------------------ *)
+(* A view (Constructs.__init__ with _view=True) is a new Constructs object
+   whose __dict__ is a copy of its source's: it shares the source's
+   _constructs / _construct_type / _construct_axes dictionaries, so every
+   mutation through it acts on them, but it has its OWN _field_data_axes
+   attribute - the value the source's attribute had when the view was taken
+   (set to None by Domain.fromconstructs) - which nothing keeps up to date.
+   What _domain_axis_spanned_by consults is therefore the attribute of
+   _view_source = getattr(source, "_view_source", source): the container the
+   source is itself a view of, or the source when it is not a view.
+     f.domain, f.get_domain(), Domain.fromconstructs(x.constructs)   RFromConstructs
+     Domain(source=x, copy=False)                                    RSource
+   with x the field or any view register. *)
+Inductive vroute := RFromConstructs | RSource.
+
+Record vrec := mkV {
+  vparent : nat;                  (* the register it was taken of *)
+  vsrc : nat;                     (* _view_source, as a register (0 = the field's own container) *)
+  vfda : option (list key)        (* its own _field_data_axes attribute *)
+}.
+
+(* register 0 is the field; register i+1 is the i-th view *)
+Record wstate := mkW { root : cstate; views : list vrec }.
+
+Definition winit : wstate := mkW init [].
+
+Definition reg_valid (w : wstate) (r : nat) : bool :=
+  match r with O => true | S i => Nat.ltb i (length (views w)) end.
+
+(* the _field_data_axes attribute of the container of register r *)
+Definition reg_fda (w : wstate) (r : nat) : option (list key) :=
+  match r with
+  | O => faxes (root w)
+  | S i => match nth_error (views w) i with Some v => vfda v | None => None end
+  end.
+
+(* getattr(container of r, "_view_source", container of r) *)
+Definition reg_src (w : wstate) (r : nat) : nat :=
+  match r with
+  | O => O
+  | S i => match nth_error (views w) i with Some v => vsrc v | None => O end
+  end.
+
+(* [rule parent parent's_source]: what Constructs.__init__ stores in
+   _view_source.  The code: getattr(source, "_view_source", source) *)
+Definition src_rule := nat -> nat -> nat.
+Definition rule_head : src_rule := fun _ psrc => psrc.
+
+Definition take_view (rule : src_rule) (w : wstate) (r : nat) (route : vroute) : wstate :=
+  let v := mkV r (rule r (reg_src w r))
+               (match route with RFromConstructs => None | RSource => reg_fda w r end) in
+  mkW (root w) (views w ++ [v]).
+
+Inductive wop :=
+| Plain (o : op)                          (* on the field (or on f.domain taken on the spot) *)
+| TakeView (r : nat) (route : vroute)     (* a new register: a view of register r *)
+| Through (r : nat) (o : op)              (* a container operation issued through view register r *)
+| OnSibling (cleaned : list (key * key)).
+    (* g = Field(source=f, copy=False), then container-level calls on g (set /
+       delete constructs, set / delete data axes, set / delete data, also through
+       g.domain).  g has its own container, so none of that reaches this
+       field's collection; but g shares the construct OBJECTS (that is what
+       copy=False asks for), and deleting a construct from g removes its name
+       from the coordinate reference objects g still holds: [cleaned] = the
+       (reference key, name) pairs so removed, as observed (any list is a
+       possible behaviour) *)
+
+(* a name removed in place from one coordinate reference *)
+Definition clean_in (rk k : key) (e : centry) : centry :=
+  if String.eqb rk (snd (fst e)) then clean_ref k e else e.
+
+Definition clean_names (ks : list (key * key)) (s : cstate) : cstate :=
+  fold_left (fun s rkk => mkS (map (clean_in (fst rkk) (snd rkk)) (cons s)) (ctys s) (caxes s) (fshape s) (faxes s))
+            ks s.
+
+(* what a Domain offers: set / delete a construct, set / delete a construct's data axes *)
+Definition viewable (o : op) : bool :=
+  match o with
+  | SetConstruct VDomain _ _ _ _ | DelConstruct VDomain _
+  | SetDataAxes VDomain _ (Some _) | DelDataAxes VDomain (Some _) => true
+  | _ => false
+  end.
+
+(* the calls that bind the field variable to a new field when they complete
+   (the registers then hold views of the old field and are dropped) *)
+Definition rebinds (o : op) : bool :=
+  match o with
+  | Copy | Subspace _ | Convert _ _ | Squeeze _ false | Transpose _ _ false _
+  | InsertDimension _ _ _ false _ => true
+  | _ => false
+  end.
+
+(* one call with the container's source attribute given explicitly *)
+Definition step_g (fda : option (list key)) (s : cstate) (o : op) : cstate * outcome :=
+  match o with
+  | SetConstruct v t p k axes => set_construct_g fda v t p k axes s
+  | DelConstruct v k => del_construct_g fda v k s
+  | _ => step s o
+  end.
+
+Definition wstep_with (rule : src_rule) (w : wstate) (wo : wop) : wstate * outcome :=
+  match wo with
+  | Plain o =>
+      let (s', out) := step (root w) o in
+      (mkW s' (match out with Done => if rebinds o then [] else views w | _ => views w end), out)
+  | TakeView r route =>
+      if reg_valid w r then (take_view rule w r route, Done) else (w, OutOfModel)
+  | OnSibling ks => (mkW (clean_names ks (root w)) (views w), Done)
+  | Through r o =>
+      match r with
+      | O => (w, OutOfModel)
+      | S i =>
+          match nth_error (views w) i with
+          | None => (w, OutOfModel)
+          | Some v =>
+              if viewable o
+              then let (s', out) := step_g (reg_fda w (vsrc v)) (root w) o in (mkW s' (views w), out)
+              else (w, OutOfModel)
+          end
+      end
+  end.
+
+Definition wstep := wstep_with rule_head.
+
+Definition wrun (ops : list wop) : wstate := fold_left (fun w o => fst (wstep w o)) ops winit.
 
 (* ------------------------------------------------------------------ *)
 (* what str / repr / dump look up                                      *)
